@@ -264,8 +264,21 @@ func (r *Real) Exec(o model.Op) (panicked bool, ret any, pmsg any) {
 			return false, a.Equals(r.Inner(r.object(o.J)).(at.Object)), nil
 		}
 	case "ForEach":
+		// the callbacks do nothing but read the receiver again (re-entrant reads are legal)
 		switch a := r.Fwd[o.R].(type) {
 		case at.List:
+			if o.I < 8 {
+				n := 0
+				a.ForEachValue(func(any) {
+					if n < 3 {
+						n++
+						a.Count()
+						a.Empty()
+						a.ForEachValue(func(any) {})
+						a.Slice()
+					}
+				})
+			}
 			switch o.I {
 			case 0:
 				return false, a.ForEach(func(int, any) {}), nil
